@@ -11,6 +11,7 @@ import Sudachi.Model.Sched
 import Sudachi.Model.Rewrite
 import Sudachi.Model.Subset
 import Sudachi.Model.Split
+import Sudachi.Model.Params
 /-! Line protocol dispatcher: one case per line in, one answer per line out. -/
 namespace Driver
 
@@ -32,6 +33,7 @@ def answer (line : String) : String :=
     | "C14" => Rewrite.handle rest
     | "C11" => Subset.handle op rest
     | "C09" => Split.handle op rest
+    | "C20" => Params.handle op rest
     | _ => "bad-op"
   | _ => "bad-op"
 
